@@ -34,13 +34,22 @@ import (
 	"verif.local/simkit/ref"
 )
 
-const crashUniverse = 6
+const crashUniverse = 8
 
+// crashID: a small universe of identifiers. 6 and 7 repeat the emitter and sequence of 3 and 0 with
+// another target chain (one of each pair addresses target chain 0, "all chains"): sequences count
+// per target chain, so these are four different messages.
 func crashID(i int64) vaa.VAAID {
 	if i < 0 {
 		i = -i
 	}
 	i %= crashUniverse
+	switch i {
+	case 6:
+		return vaa.VAAID{EmitterChain: 255, EmitterAddress: vaa.Address{0xaa, 1}, TargetChain: 2, Sequence: 0}
+	case 7:
+		return vaa.VAAID{EmitterChain: 2, EmitterAddress: vaa.Address{0xaa, 0}, TargetChain: 0, Sequence: 0}
+	}
 	return vaa.VAAID{EmitterChain: vaa.ChainID([]uint16{2, 255, 2, 255, 10, 2}[i]), EmitterAddress: vaa.Address{0xaa, byte(i / 3)}, TargetChain: vaa.ChainID([]uint16{255, 2, 25, 0, 2, 255}[i]), Sequence: uint64(i % 3)}
 }
 
@@ -74,6 +83,7 @@ func crashVAAWithID(id vaa.VAAID, i, variant int64) (*vaa.VAA, []byte) {
 }
 
 type crashWorld struct {
+	storeRace           string
 	stormSeq            int64
 	aborted             bool
 	res                 *simkit.Result
@@ -107,12 +117,45 @@ func (w *crashWorld) newDir(tag string) string {
 	return filepath.Join(w.base, fmt.Sprintf("%s%d", tag, w.nDir))
 }
 
+// snapshot copies a store directory. The source may belong to an open store whose background
+// workers (flush after recovery, compaction of level 0 once enough tables have accumulated) add and
+// delete files at their own pace: a copy taken across such a change is not a state any kill can
+// leave. The directory is therefore listed (name, size, modification time) before and after the
+// copy, and the copy is repeated until nothing moved in between.
 func snapshot(src, dst string) error {
-	out, err := exec.Command("cp", "-r", "--sparse=always", src, dst).CombinedOutput()
-	if err != nil {
-		return fmt.Errorf("cp: %v %s", err, out)
+	var last error
+	for try := 0; try < 40; try++ {
+		before := dirStamp(src)
+		os.RemoveAll(dst)
+		out, err := exec.Command("cp", "-r", "--sparse=always", src, dst).CombinedOutput()
+		if err == nil && before == dirStamp(src) {
+			return nil
+		}
+		if err != nil {
+			last = fmt.Errorf("cp: %v %s", err, out)
+		} else {
+			last = fmt.Errorf("directory %s kept changing while it was copied", src)
+		}
+		time.Sleep(10 * time.Millisecond)
 	}
-	return nil
+	return last
+}
+
+func dirStamp(dir string) string {
+	es, err := os.ReadDir(dir)
+	if err != nil {
+		return "unreadable: " + err.Error()
+	}
+	var sb strings.Builder
+	for _, e := range es {
+		fi, err := e.Info()
+		if err != nil {
+			fmt.Fprintf(&sb, "%s gone;", e.Name())
+			continue
+		}
+		fmt.Fprintf(&sb, "%s %d %d;", e.Name(), fi.Size(), fi.ModTime().UnixNano())
+	}
+	return sb.String()
 }
 
 func copyModel(m map[int64][]byte) map[int64][]byte {
@@ -334,9 +377,40 @@ func (w *crashWorld) run(p *simkit.Program) {
 					}()
 				}
 				runtime.Gosched()
+				// every second round a second writer stores the same VAA at the same moment (a peer's copy
+				// arriving while the node's own quorum completes): each acknowledgement is one
+				var err2 error
+				dup := k%2 == 1
+				dupDone := make(chan struct{})
+				if dup {
+					go func() {
+						defer close(dupDone)
+						if err2 = w.d.StoreSignedVAA(v); err2 == nil {
+							if b, lerr := w.d.GetSignedVAABytes(id); lerr != nil || !bytes.Equal(b, exp) {
+								w.storeRace = fmt.Sprintf("the second of two concurrent stores of one identifier was acknowledged, but a lookup right after that says: %v", lerr)
+							}
+						}
+					}()
+				} else {
+					close(dupDone)
+				}
 				err := w.d.StoreSignedVAA(v)
+				if err == nil {
+					if b, lerr := w.d.GetSignedVAABytes(id); lerr != nil || !bytes.Equal(b, exp) {
+						w.storeRace = fmt.Sprintf("a store was acknowledged, but a lookup right after that says: %v", lerr)
+					}
+				}
+				<-dupDone
 				close(stop)
 				wg.Wait()
+				if w.storeRace != "" {
+					w.violate("acknowledged-write-not-readable", "%s", w.storeRace)
+					break
+				}
+				if err2 != nil {
+					w.violate("store-failed", "concurrent StoreSignedVAA of the same VAA: %v", err2)
+					break
+				}
 				if err != nil {
 					w.violate("store-failed", "StoreSignedVAA during concurrent lookups: %v", err)
 					break
